@@ -1,17 +1,16 @@
 SPECIFICATION Spec
 CONSTANTS
-  Versions <- DeferVersions
-  Cmds <- DeferCmds
-  ArgSets <- ArgSetsDefer
+  Versions <- PlatVersions
+  Cmds <- PlatCmds
+  ArgSets <- ArgSetsPlat
   HdrPorts <- Ports16
   HdrChans <- Chans4
-  PlatPackets <- NoPlat
-  Links <- LinksBoth
+  PlatPackets <- PlatAll
+  Links <- LinksNow
   Cap = 1
   Chained = FALSE
-  Bug = "none"
+  Bug = "version_demorgan"
 INVARIANT EmissionsOK
 INVARIANT HeadersOK
 INVARIANT RepresentableIsSent
-INVARIANT TypeOK
 CHECK_DEADLOCK FALSE
